@@ -22,6 +22,7 @@ META = {
     'design_ref': 'DESIGN.md section 4, C35',
 }
 K, CK = 1, 2
+STATIC = ['st', 'st2']      # static columns live in the partition: they survive row deletes and key reassignments
 CORPUS = os.path.join(core.VERIF, 'corpus', 'C35')
 
 
@@ -35,6 +36,7 @@ def run_history(ops, want_corr=True):
     from cassandra.cqlengine import CQLEngineException, ValidationError
     Row = O.models()['Row']
     inst = None
+    last_post = None
     ck = CK
     used_ck = set([CK])
     rekeyed = False
@@ -48,17 +50,19 @@ def run_history(ops, want_corr=True):
         if k == 'create':
             if inst is not None:
                 continue
-            if 'st' not in o[1]:
-                o = [o[0], dict(o[1], st=None)]      # a static column survives a row delete: always (re)write it explicitly on create
-            kw = dict((a, H.py_val(v)) for a, v in o[1].items())
+            for sa in STATIC:
+                if sa not in o[1]:
+                    o = [o[0], dict(o[1], **{sa: None})]      # a static column survives a row delete: always (re)write it explicitly on create
+            kw = dict((a, O.pyv(v)) for a, v in o[1].items())
             inst = Row(k=K, c=ck, **kw)
+            last_post = None
             for a, v in o[1].items():
                 touched[a].append('create-none' if v is None else 'create-empty' if isinstance(v, list) and not v[1] else 'create')
             rec = 'save'
         elif inst is None:
             continue
         elif k == 'set':
-            setattr(inst, o[1], H.py_val(o[2]))
+            setattr(inst, o[1], O.pyv(o[2]))
             touched[o[1]].append('set-none' if o[2] is None else 'set-empty' if isinstance(o[2], list) and not o[2][1] else 'set')
         elif k == 'del':
             delattr(inst, o[1])
@@ -68,7 +72,12 @@ def run_history(ops, want_corr=True):
             if cur is None:
                 continue
             a, how, x = o[1], o[2], o[3]
-            if how == 'clear':
+            if how == 'inner':
+                if a != 'ml' or not cur:
+                    continue
+                key_ = x if x in cur else sorted(cur)[0]
+                cur[key_].append(x + 30)            # in-place change of an inner collection: the outer dict object is untouched
+            elif how == 'clear':
                 cur.clear()
             elif how == 'grow':
                 if a == 'l' and cur:
@@ -76,6 +85,8 @@ def run_history(ops, want_corr=True):
                     cur.append(x + 20)
                 elif a == 's':
                     cur.update([x, x + 1])
+                elif a == 'ml':
+                    cur[x] = [x, x + 2]
                 elif a != 'l':
                     cur[x] = x + 2
             elif a == 's':
@@ -87,7 +98,7 @@ def run_history(ops, want_corr=True):
                     cur.remove(x)
             else:
                 if how == 'add':
-                    cur[x] = x + 1
+                    cur[x] = [x + 1] if a == 'ml' else x + 1
                 else:
                     cur.pop(x, None)
             touched[a].append('mut-' + how)
@@ -100,14 +111,14 @@ def run_history(ops, want_corr=True):
             ck = newck
             used_ck.add(ck)
             rekeyed = True
-            exp = {'st': exp.get('st')}             # the row under the new key does not exist yet (static column is per partition)
+            exp = dict((sa, exp.get(sa)) for sa in STATIC)             # the row under the new key does not exist yet (static column is per partition)
             for a in O.ATTR_COL:
                 touched[a].append('rekey')
         elif k in ('save', 'batch_save'):
             rec = k
         elif k == 'update':
             for a, v in o[1].items():
-                setattr(inst, a, H.py_val(v))
+                setattr(inst, a, O.pyv(v))
                 touched[a].append('set-none' if v is None else 'set-empty' if isinstance(v, list) and not v[1] else 'set')
             rec = 'update'
         elif k == 'delete':
@@ -116,7 +127,7 @@ def run_history(ops, want_corr=True):
             pre = O.capture(inst)
             em = [a for t, p in r.calls for a in O.to_ast(t, p)]
             allst += em
-            exp = {'st': exp.get('st')}
+            exp = dict((sa, exp.get(sa)) for sa in STATIC)
             steps.append({'ck': ck, 'i': i, 'kind': 'delete', 'emitted': em, 'all': list(allst), 'exp': O.row_literal(exp), 'pre': pre, 'post': None,
                           'persisted': True, 'touched': copy.deepcopy(touched), 'text': [t for t, _ in r.calls]})
             inst = None
@@ -125,7 +136,7 @@ def run_history(ops, want_corr=True):
         elif k == 'qs_update':
             kwargs = {}
             for a, op, v in o[1]:
-                kwargs[kwname(a, op)] = H.py_val(v)
+                kwargs[kwname(a, op)] = O.pyv(v)
             try:
                 with H.Recorder() as r:
                     Row.objects(k=K, c=ck).update(**kwargs)
@@ -143,6 +154,7 @@ def run_history(ops, want_corr=True):
             for a in O.ATTR_COL:
                 vals['y' if a == 'yy' else a] = copy.deepcopy(exp.get(a))
             inst = Row._construct_instance(vals)
+            last_post = None
             touched = dict((a, []) for a in O.ATTR_COL)
             continue
         if rec is None:
@@ -152,6 +164,8 @@ def run_history(ops, want_corr=True):
         rekeyed = False
         inst.validate()
         pre = O.capture(inst)
+        # previous_value is the snapshot taken when the instance was last persisted: nothing the user does in between may change it
+        prev_changed = [] if last_post is None else [c['f'] for c, d in zip(pre, last_post) if c['prev'] != d['prev']]
         persisted = bool(inst._is_persisted)
         old_exp = dict(exp)
         with H.Recorder() as r:
@@ -165,6 +179,7 @@ def run_history(ops, want_corr=True):
                 b.execute()
                 inst._batch = None
         post = O.capture(inst)
+        last_post = copy.deepcopy(post)
         em = [a for t, p in r.calls for a in O.to_ast(t, p)]
         allst += em
         new = O.inst_row(inst)
@@ -174,7 +189,7 @@ def run_history(ops, want_corr=True):
                 if a not in o[1] and not new[a]:
                     new[a] = old_exp.get(a)
         exp = new
-        steps.append({'ck': ck, 'i': i, 'kind': 'create' if k == 'create' else rec, 'emitted': em, 'all': list(allst), 'exp': O.row_literal(exp), 'pre': pre, 'old_exp': old_exp,
+        steps.append({'ck': ck, 'i': i, 'kind': 'create' if k == 'create' else rec, 'emitted': em, 'all': list(allst), 'exp': O.row_literal(exp), 'pre': pre, 'old_exp': old_exp, 'prev_changed': prev_changed,
                       'post': post, 'persisted': persisted, 'touched': copy.deepcopy(touched), 'text': [t for t, _ in r.calls]})
         touched = dict((a, []) for a in O.ATTR_COL)
     return steps
@@ -249,6 +264,9 @@ def run(ctx):
             ctx.count('op', o[0])
         for s in steps:
             ctx.count('persisting_op', s['kind'])
+            if s.get('prev_changed'):
+                ctx.disagreement('value-manager.previous_value-changed-between-persists', 'history %r step %d: previous_value of columns %r changed although nothing was persisted '
+                                 '(the snapshot shares objects with the live value)' % (ops, s['i'], s['prev_changed']), case={'history': ops[:s['i'] + 1]}, actual=s['prev_changed'])
             prop_cases.append('row_eqb (read_row sc_row (exec_all sc_row [] %s) %d (Some %d) %s) %s'
                               % (lst(s['all']), K, s['ck'], H.zl(O.ROW_COLS), s['exp']))
             prop_meta.append((ops, s))
